@@ -842,3 +842,36 @@ def bytes_for_each(c):
         st2.cells.pop(cell, None)
         out.append((st2, Struct()))
     return out
+
+
+# ------------------------------------------------------------------------------------------- Option combinators with closures
+
+@first(r"^std::option::Option::<.*>::(is_some_and|is_none_or|map_or|map_or_else)::<.*>$")
+def option_closure_combinators(c):
+    """is_some_and / is_none_or / map_or / map_or_else: decided per variant, the closure called in context"""
+    v = c.args[0]
+    op = re.search(r"::(is_some_and|is_none_or|map_or|map_or_else)::<", c.name).group(1)
+    if not (isinstance(v, Enum) and v.adt == OPTION):
+        return c.it.models.lookup_after(c.name, option_closure_combinators)(c)
+    out = []
+    for i in sorted(v.v):
+        st = c.st if len(v.v) == 1 else c.st.copy()
+        if i == 0:
+            if op == "is_some_and":
+                out.append((st, Cond("const", False)))
+            elif op == "is_none_or":
+                out.append((st, Cond("const", True)))
+            elif op == "map_or":
+                out.append((st, c.args[1]))
+            else:
+                res = c.call_closure(st, c.args[1], [], "mo")
+                if res is None:
+                    return c.it.models.lookup_after(c.name, option_closure_combinators)(c)
+                out.extend(res)
+        else:
+            f = c.args[1] if op in ("is_some_and", "is_none_or") else c.args[2]
+            res = c.call_closure(st, f, [v.v[1].get(0)], "ms")
+            if res is None:
+                return c.it.models.lookup_after(c.name, option_closure_combinators)(c)
+            out.extend(res)
+    return out
